@@ -42,6 +42,9 @@ type Hook struct {
 	Used    int
 	File    string
 	Line    int
+	// Optional ("on call? ..."): the event need not occur in the function; the hook only observes it
+	// when it does (alternative ways of reading the same state)
+	Optional bool
 }
 
 type LoopContract struct {
@@ -353,7 +356,7 @@ func (cs *Contracts) ParseFile(path string) error {
 			if len(fs) < 1 {
 				return fail(fmt.Errorf("on needs a kind"))
 			}
-			h := &Hook{Kind: fs[0], File: path, Line: ln}
+			h := &Hook{Kind: strings.TrimSuffix(fs[0], "?"), Optional: strings.HasSuffix(fs[0], "?"), File: path, Line: ln}
 			r2 := strings.TrimSpace(rest[len(fs[0]):])
 			if strings.HasPrefix(r2, "\"") || strings.HasPrefix(r2, "`") {
 				q := r2[0]
